@@ -33,6 +33,8 @@ var c33Corpus = []string{
 	"const f = function(p){ let q = p; return q; };", "let x = function(p){return p;}, y = 2; function g(p){return p;}",
 	"function f(){ let a; const {b, c:[d, e]} = o; var [g, {h}] = q; for (const k of l) {} for (let i = 0, n = 3; i < n; i++) {} }",
 	"function outer(){ class Inner { m(){ let z1 = 1; return z1; } } let after = 2; return after; }",
+	"function f(rows, base){ return `${rows.reduce(function (s, r) { return s + r.n; }, base)}`; }", "function f(v, tail){ return `${'}' + tail}${({a: v}).a}`; }",
+	"function f(p, q){ return `{${p}}\\${q}$${ {a: 1}.a + q }`; }",
 }
 
 // program-shaped corpus: {known class or "none", program}
@@ -50,6 +52,11 @@ var c33CorpusProgs = [][2]string{
 	{"none", "function outer(){ class Inner { m(){ let z1 = 1; return z1; } } let after = 2; return after + new Inner().m(); } console.log(outer());"},
 	{"none", "var count = 1; let size = 2; function f(count, size){return count+size;} function g(){return count+size;} console.log(f(1,1)+g());"},
 	{"none", "function f(o, value){ return [o?.value, o.value, o ?. value === value, {value}.value]; } console.log(JSON.stringify(f({value:1}, 2)));"},
+	{"none", "function f(rows, base){ return `t=${rows.reduce(function (s, r) { return s + r.n; }, base)}/${rows.length}`; } console.log(f([{n:1},{n:2}], 10));"},
+	{"none", "function f(list, sep, pad){ const w = 2; return `${list.map((e) => { return e * w; }).join(sep)}${pad}${JSON.stringify({k: 1, o: {k: 2}}) + pad}`; } console.log(f([1,2], '-', '!'));"},
+	{"none", "function f(v, tail){ let mark = '#'; return `${'}' + tail}|${({a: v}).a + mark}|${(() => { let z = v; return z; })() + mark}`; } console.log(f(1, 'T'));"},
+	{"none", "function f(n, lo, hi){ return `${[1,2,3].filter(function (x) { if (x > lo) { return true; } return x < hi; }).length + n}`; } console.log(f(1, 1, 3));"},
+	{"none", "function f(cells){ let out = ''; for (const cell of cells) { const cls = 'c'; out += `<td class=\"${[cell].map((x) => { return x.kind; })[0] || cls}\">${cell.text}</td>`; } return out; } console.log(f([{text:'a'},{kind:'k',text:'b'}]));"},
 	{"rename-label-at-block-start", "function f(x){ {lbl: for(;;){break lbl;}} return x;} function g(lbl){return lbl;} console.log(f(1)+g(2));"},
 	{"rename-global-collision", "function f(status){return status;} function g(){return status;} console.log(f(1)+g());"},
 	{"rename-member-name", "function f(name){return {name(){return 1;}}.name()+name;} console.log(f(1));"},
@@ -213,6 +220,8 @@ func c33Oracle(t *testing.T, o *c33Out, dir string, progs []c33Prog) {
 
 		if strings.Contains(r.Orig, `"err":""`) {
 			o.st.Inc("programs_ran_clean")
+		} else {
+			o.st.Inc("programs_original_threw") // expected 0: every idiom is written to run to completion
 		}
 
 		for _, v := range []struct{ name, got, code string }{{"plain", r.Min0, in[i].Min0}, {"renamed", r.Min1, in[i].Min1}} {
